@@ -5,7 +5,9 @@
    (locate, inG: OGC mod-2 rule for lines, crossing parity for rings). *)
 From Coq Require Import QArith List Bool ZArith.
 From SF Require Import Base.GeomAST Base.QKernel Base.Planar Model.Boundary Model.PointOnSurface
-  Proofs.Boundary_proofs Proofs.PointOnSurface_proofs.
+  Proofs.Boundary_proofs Proofs.PointOnSurface_proofs
+  Model.ValidateSpec Model.PosNesting Proofs.PosNesting_proofs
+  Model.BoundaryExact Proofs.BoundaryExact_proofs.
 Import ListNotations.
 Open Scope Q_scope.
 
@@ -235,3 +237,59 @@ Theorem pos_multipolygon_interior : forall ct (ys : list (polyT Q)) (p : pt),
   locate (GMPoly ct ys) p = Interior.
 Proof. exact pos_mpoly_interior_lemma. Qed.
 Print Assumptions pos_multipolygon_interior.
+
+(* ================================================================ the interior theorem with EXECUTABLE hypotheses only *)
+(* valid_nesting is no longer assumed: it is derived, at the returned point, from the executable
+   predicate nest_okb (Model/PosNesting.v): rings closed, every hole in the closed exterior ring and
+   no hole entering another (clauses hole_inside / not_nested of the verified reference ogc_valid,
+   Model/ValidateSpec.v), the exterior ring entering no hole (shell_outside) - each evaluated at the
+   witnesses of the exact arrangement, which decides it for ALL points of Q^2 (Proofs/Planar_slab.v
+   via Validate_ogc.everywhere_spec).  row_hyps (Model/PointOnSurface.v) is the decidable rest:
+   even number >= 2 of intercepts, the bisector reaches every crossing, crossings pairwise distinct.
+   The driver evaluates interior_hyps = row_hyps && nest_okb on every valid generated polygon. *)
+Theorem pos_areal_interior_exec : forall (y : polyT Q) (p : pt),
+  row_hyps y = true -> nest_okb y = true ->
+  point_xy (fst (point_on_area y)) = Some p ->
+  locate (GPoly y) p = Interior.
+Proof. exact pos_areal_interior_exec_lemma. Qed.
+Print Assumptions pos_areal_interior_exec.
+Example pos_areal_interior_exec_ex :
+  interior_hyps ex_holed = true /\ interior_hyps ex_u = true /\
+  point_xy (fst (point_on_area ex_holed)) = Some (4 # 2, 12 # 4).
+Proof. vm_compute. repeat split. Qed.
+
+Theorem pos_multipolygon_interior_exec : forall ct (ys : list (polyT Q)) (p : pt),
+  (forall y, In y ys -> poly_empty y = false -> interior_hyps y = true) ->
+  point_xy (mpoly_pos ys) = Some p ->
+  locate (GMPoly ct ys) p = Interior.
+Proof. exact pos_mpoly_interior_exec_lemma. Qed.
+Print Assumptions pos_multipolygon_interior_exec.
+
+(* the third clause means what it says, for all points *)
+Theorem shell_outside_meaning : forall sh h : list pt, pts_closed h = true ->
+  (shell_outside sh h = true <->
+   forall p, on_edges (segs sh) p = true -> on_edges (segs h) p = false -> edges_parity (segs h) p = false).
+Proof. exact shell_outside_spec. Qed.
+Print Assumptions shell_outside_meaning.
+
+(* link to ogc_valid: its polygon clause gives all of nest_okb except shell_outside *)
+Theorem nest_ok_from_ogc_polygon_clause : forall (y : polyT Q) shell holes,
+  rings_of y = shell :: holes ->
+  poly_def (shell :: holes) = true -> forallb (shell_outside shell) holes = true -> nest_okb y = true.
+Proof. exact nest_okb_from_ogc. Qed.
+Print Assumptions nest_ok_from_ogc_polygon_clause.
+
+(* ================================================================ "exactly the set", for ALL points *)
+(* The SPEC check the driver evaluates on the implementation's Boundary(g) = b (agreement of
+   "p in b" with "p is Boundary of a leaf of g" at the witnesses of the exact arrangement of g and
+   b, rings closed) decides that agreement for EVERY point of Q^2 - nothing is left to sampling. *)
+Theorem boundary_exact_everywhere : forall g b : geom,
+  boundary_exact_ok g b = true ->
+  forall p, inG b p = on_leaf_boundary (leaf_preps g) p.
+Proof. exact boundary_exact_everywhere_lemma. Qed.
+Print Assumptions boundary_exact_everywhere.
+Example boundary_exact_everywhere_ex :
+  boundary_exact_ok (GPoly ex_holed) (boundary (GPoly ex_holed)) = true /\
+  boundary_exact_ok ex_coll (boundary ex_coll) = true /\
+  boundary_exact_ok (GPoly ex_holed) (GLine (zline [(0,0);(4,0);(4,4);(0,4);(0,0)]%Z)) = false.
+Proof. vm_compute. repeat split. Qed.
